@@ -42,11 +42,12 @@ fn char_boundaries(s: &str) -> Vec<usize> {
 }
 
 /// one concrete edit of an abstract shape on the current text
-fn concrete_edit(src: &str, shape: &Value, rng: &mut Rng) -> (usize, usize, String) {
+fn concrete_edit(src: &str, shape: &Value, rng: &mut Rng, layout: bool) -> (usize, usize, String) {
   let bounds = char_boundaries(src);
   let line_starts: Vec<usize> = std::iter::once(0).chain(src.match_indices('\n').map(|(i, _)| i + 1)).filter(|&i| i <= src.len()).collect();
   let lines: Vec<&str> = src.split_inclusive('\n').collect();
-  let kind = rng.below(10);
+  // layout-sensitive carriers get white-space insertions most of the time
+  let kind = if layout && rng.chance(2, 3) { 6 } else { rng.below(10) };
   // whole-line operations and token renames keep most results error-free
   if kind < 3 && lines.len() >= 2 {
     let from = rng.below(lines.len());
@@ -84,6 +85,16 @@ fn concrete_edit(src: &str, shape: &Value, rng: &mut Rng) -> (usize, usize, Stri
       let (s, e) = *rng.pick(&idents);
       let name = *rng.pick(&["x", "renamed_é", "v2", "a"]);
       return (s, e - s, name.to_string());
+    }
+  }
+  if kind == 6 {
+    // white space inserted right after white space: harmless in most places, but layout matters after a line comment,
+    // after `return`, and wherever indentation is syntax
+    let spots: Vec<usize> = bounds.iter().copied().filter(|&b| b > 0 && b <= src.len() && src.as_bytes()[b - 1].is_ascii_whitespace()).collect();
+    if !spots.is_empty() {
+      let at = *rng.pick(&spots[..]);
+      let ws = *rng.pick(&["  ", "\n", "\n  ", " ", "\t", "    "]);
+      return (at, 0, ws.to_string());
     }
   }
   if kind == 7 && bounds.len() > 8 {
@@ -186,6 +197,8 @@ pub fn drive(vectors: Option<&str>, corpus: &str, seed: u64, out: &str, thorough
     (SupportLang::JavaScript, "carrier1".into(), "let a = 1;\nfoo(a, b);\nlet é = [a, b];\n".into()),
     (SupportLang::JavaScript, "carrier2".into(), "function f(x) {\n  return x + 1;\n}\nf(2);\n".into()),
     (SupportLang::Python, "carrier3".into(), "def f(x):\n    return x + 1\n\nprint(f(2))\n".into()),
+    (SupportLang::Python, "carrier5".into(), "if ready:\n  start()\nreport()\nfor x in y:\n    a = 1\n    b = 2\nc = 3\n".into()),
+    (SupportLang::JavaScript, "carrier6".into(), "let n = 1; // then reset()\nfunction f() {\n  return x + 1;\n}\n".into()),
     (SupportLang::Rust, "carrier4".into(), "fn main() {\n    let s = \"é🦀\";\n    println!(\"{}\", s);\n}\n".into()),
   ];
   for (l, path, text) in util::corpus(corpus) {
@@ -193,19 +206,32 @@ pub fn drive(vectors: Option<&str>, corpus: &str, seed: u64, out: &str, thorough
       sources.push((l, path, text));
     }
   }
-  let per_source = if thorough { 40 } else { 6 };
+  let per_source_base = if thorough { 40 } else { 6 };
   let hist_len = if thorough { 3 } else { 2 };
   let mut w = NdWriter::new(out);
   let mut offset = 0u64;
   let (mut n_ok, mut n_err) = (0, 0);
   let mut langs = std::collections::BTreeSet::new();
   for (l, path, text) in &sources {
+    // layout-sensitive carriers: every white-space insertion after a white-space character is tried as a first step
+    let layout_src = path == "carrier5" || path == "carrier6";
+    let mut planned: Vec<(usize, usize, String)> = vec![];
+    if layout_src {
+      for b in char_boundaries(text) {
+        if b > 0 && b <= text.len() && text.as_bytes()[b - 1].is_ascii_whitespace() {
+          for ws in ["  ", "\n", "\n  ", " ", "    "] {
+            planned.push((b, 0, ws.to_string()));
+          }
+        }
+      }
+    }
+    let per_source = per_source_base + planned.len();
     for h in 0..per_source {
       let mut g = l.ast_grep(text);
       for step in 0..hist_len {
         let shape = rng.pick(&shapes).clone();
         let before = g.source().to_string();
-        let (pos, del, ins) = concrete_edit(&before, &shape, &mut rng);
+        let (pos, del, ins) = if step == 0 && h < planned.len() { planned[h].clone() } else { concrete_edit(&before, &shape, &mut rng, layout_src) };
         let edit = Edit::<String> { position: pos, deleted_length: del, inserted_text: ins.as_bytes().to_vec() };
         let r = std::panic::catch_unwind(std::panic::AssertUnwindSafe(|| g.edit(edit).is_ok()));
         // hook events of this step
